@@ -489,6 +489,48 @@ def tokenise_v2000(text):
     return {'na': na, 'nb': nb, 'atoms': atoms, 'bonds': bonds, 'props': props}
 
 
+def tokenise_v3000(text):
+    """a V3000 connection table brought to the record of MdlFields: one one-entry property line per CHG= / MASS= / RAD= key (atom-block codes
+    do not exist in V3000, so every charge is 'listed')"""
+    lines = [l[7:].split() for l in text.split('\n') if l.startswith('M  V30 ')]
+    k = next(j for j, l in enumerate(lines) if l[:1] == ['COUNTS'])
+    na, nb = int(lines[k][1]), int(lines[k][2])
+    a0 = next(j for j, l in enumerate(lines) if l == ['BEGIN', 'ATOM']) + 1
+    a1 = next(j for j, l in enumerate(lines) if l == ['END', 'ATOM'])
+    pos, atoms, props = {}, [], []
+    for j, l in enumerate(lines[a0:a1], start=1):
+        pos[int(l[0])] = j
+        atoms.append({'s': l[1], 'dd': 0, 'ccc': 0})
+        for kv in l[6:]:
+            key, v = kv.split('=', 1)
+            if key in ('CHG', 'MASS', 'RAD'):
+                props.append({'kind': {'CHG': 'CHG', 'MASS': 'ISO', 'RAD': 'RAD'}[key], 'nn': 1, 'ents': [[j, int(v)]]})
+    bonds = []
+    if ['BEGIN', 'BOND'] in lines:
+        b0, b1 = lines.index(['BEGIN', 'BOND']) + 1, lines.index(['END', 'BOND'])
+        for l in lines[b0:b1]:
+            cfg = [kv.split('=', 1)[1] for kv in l[4:] if kv.startswith('CFG=')]
+            bonds.append([pos.get(int(l[2]), 0), pos.get(int(l[3]), 0), int(l[1]), {'1': 1, '2': 4, '3': 6}.get(cfg[0], 9) if cfg else 0])
+    return {'na': na, 'nb': nb, 'atoms': atoms, 'bonds': bonds, 'props': props}
+
+
+def render_v3000(f, rnd):
+    per = {}
+    for p in f['props']:
+        for a, v in p['ents']:
+            per.setdefault(a, []).append({'CHG': 'CHG', 'ISO': 'MASS', 'RAD': 'RAD'}[p['kind']] + f'={v}')
+    out = ['', '', '', '  0  0  0     0  0            999 V3000', 'M  V30 BEGIN CTAB', f'M  V30 COUNTS {f["na"]} {f["nb"]} 0 0 0', 'M  V30 BEGIN ATOM']
+    for k, a in enumerate(f['atoms'], start=1):
+        kv = per.get(k, [])
+        rnd.shuffle(kv)
+        out.append(f'M  V30 {k} {a["s"]} {k * 1.5:.4f} 0.0000 0 {k}' + ''.join(' ' + x for x in kv))
+    out += ['M  V30 END ATOM', 'M  V30 BEGIN BOND']
+    for j, (a, b, o, st) in enumerate(f['bonds'], start=1):
+        out.append(f'M  V30 {j} {o} {a} {b}')
+    out += ['M  V30 END BOND', 'M  V30 END CTAB', 'M  END', '$$$$', '']
+    return '\n'.join(out)
+
+
 def fieldproj(m):
     idx = {n: i + 1 for i, n in enumerate(m._atoms)}
     return {'atoms': [{'s': a.atomic_symbol, 'c': a._charge, 'i': a._isotope or 0, 'r': 1 if a._is_radical else 0} for a in m._atoms.values()],
@@ -510,7 +552,7 @@ def render_v2000(f):
 def observe_fields(case):
     """C11 fields: 'w' the library writes a V2000 block for a molecule, 'r' it reads a block rendered from generated fields"""
     from chython import smiles
-    from chython.files import SDFRead, SDFWrite
+    from chython.files import SDFRead, SDFWrite, ESDFWrite
     rec = {'dir': case['dir'], 'exc': '', 'f': {'na': 0, 'nb': 0, 'atoms': [], 'bonds': [], 'props': []}, 'm': {'atoms': [], 'bonds': []}}
     if case['dir'] == 'w':
         try:
@@ -521,16 +563,17 @@ def observe_fields(case):
         rec['m'] = fieldproj(m)
         try:
             buf = io.StringIO()
-            w = SDFWrite(buf)
+            w = (ESDFWrite if case.get('v3') else SDFWrite)(buf)
             w.write(m)
             w.close()
-            rec['f'] = tokenise_v2000(buf.getvalue())
+            rec['f'] = (tokenise_v3000 if case.get('v3') else tokenise_v2000)(buf.getvalue())
         except Exception as e:
             rec['exc'] = 'writer-or-columns:' + type(e).__name__
         return rec
     rec['f'] = case['f']
     try:
-        back = next(iter(SDFRead(io.StringIO(render_v2000(case['f'])), ignore=True)), None)
+        text = render_v3000(case['f'], random.Random(case['rs'])) if case.get('v3') else render_v2000(case['f'])
+        back = next(iter(SDFRead(io.StringIO(text), ignore=True)), None)
     except Exception as e:
         rec['exc'] = 'well-formed-block-refused:' + type(e).__name__
         return rec
@@ -541,18 +584,18 @@ def observe_fields(case):
     return rec
 
 
-def gen_fields(rnd):
+def gen_fields(rnd, v3=False):
     """generated fields: isolated metal atoms (any charge is chemically acceptable) and a carbon chain; charges through the atom-block code
     and / or 'M  CHG' entries, isotopes and radicals through property lines of 1..8 entries; code 4 (doublet radical in the atom block)
     is not generated: the library reads it as no radical (recorded deviation, DESIGN 0.2)"""
     iso = {'Fe': [54, 56, 57], 'Zr': [90, 91], 'Ti': [46, 48], 'U': [235, 238], 'Sn': [118, 120], 'C': [12, 13, 14]}
     nm, nc = rnd.randint(1, 12), rnd.randint(0, 4)
-    atoms = [{'s': rnd.choice(['Fe', 'Zr', 'Ti', 'U', 'Sn']), 'dd': 0, 'ccc': rnd.choice([0, 0, 1, 2, 3, 5, 6, 7])} for _ in range(nm)] + [{'s': 'C', 'dd': 0, 'ccc': 0} for _ in range(nc)]
+    atoms = [{'s': rnd.choice(['Fe', 'Zr', 'Ti', 'U', 'Sn']), 'dd': 0, 'ccc': 0 if v3 else rnd.choice([0, 0, 1, 2, 3, 5, 6, 7])} for _ in range(nm)] + [{'s': 'C', 'dd': 0, 'ccc': 0} for _ in range(nc)]
     bonds = [[nm + j, nm + j + 1, 1, 0] for j in range(1, nc)]
     props = []
     def lines(kind, ents):
         while ents:
-            k = rnd.randint(1, 8)
+            k = 1 if v3 else rnd.randint(1, 8)
             props.append({'kind': kind, 'nn': len(ents[:k]), 'ents': ents[:k]})
             ents = ents[k:]
     metals = list(range(1, nm + 1))
@@ -712,6 +755,9 @@ def run(ck):
     fcases = [{'key': f'fields:w:{s}', 'dir': 'w', 'smi': s} for s in labelled + chy.pick(corp, 150 if ck.quick else 3000, ck.seed, 9)]
     frnd = random.Random(ck.seed * 31 + 5)
     fcases += [{'key': f'fields:r:{k}', 'dir': 'r', 'f': gen_fields(frnd)} for k in range(300 if ck.quick else 6000)]
+    # the same questions for V3000 (CHG= / MASS= / RAD= keys of the atom line, brought to the record of MdlFields as one-entry lines)
+    fcases += [{'key': f'fields3:w:{s}', 'dir': 'w', 'smi': s, 'v3': True} for s in labelled + chy.pick(corp, 100 if ck.quick else 2000, ck.seed, 10)]
+    fcases += [{'key': f'fields3:r:{k}', 'dir': 'r', 'v3': True, 'rs': k, 'f': gen_fields(frnd, True)} for k in range(200 if ck.quick else 4000)]
     fcases = ck.select('v2000-fields', fcases)
     if fcases:
         res = vlib.pmap('checks.c11', 'observe_fields', fcases)
@@ -723,7 +769,7 @@ def run(ck):
         out = ck.validate('v2000-fields', 'Trace_MdlFields', [c for c, _ in keep], [r for _, r in keep])
         ck.count('v2000-fields: blocks whose strict CTfile reading (M  CHG zeroes unlisted atoms) differs', out['out'].count('"strict"'))
         for c, r in keep:
-            ck.count('fields:' + c['dir'])
+            ck.count(('fields-v3000:' if c.get('v3') else 'fields-v2000:') + c['dir'])
     if ck.want('repository-files') and not ck.replay:
         recs = repo_files({})
         ck.validate('repository-files', 'Trace_C11', [{'key': r['fmt']} for r in recs], recs)
